@@ -632,9 +632,12 @@ func appendUnorderedTypeParamKeys(b *bytes.Buffer, params []px.Value) {
 // using string keys
 func appendTypeParamKey(b *bytes.Buffer, v px.Value) {
 	if h, ok := v.(*Hash); ok {
+		// The number of entries, then each entry key as the key of an element (delimited, a string marked as a string, a
+		// type keyed as a type: the printed form of an Optional['a'] key is also the text of a string) and its value
 		b.WriteByte(2)
+		appendElementKey(b, integerValue(h.Len()))
 		h.EachPair(func(k, v px.Value) {
-			b.Write([]byte(k.String()))
+			appendElementKey(b, k)
 			b.WriteByte(3)
 			appendTypeParamKey(b, v)
 		})
